@@ -327,6 +327,22 @@ std::vector<Step> mt_program(Rng& r, int c, int len, int K, bool listed_only, bo
 	}
 	// self-assignment: mt_assign h h is generated by equal slots; make sure it occurs
 	if (n[0]) out.push_back(gen::mk(c, "mt_assign", {0, 0, 0}));
+	if (!listed_only && r.chance(1, 3)) {
+		// "default twins": one function built twice with the roles of value and default value exchanged (v where bit i is 1, d
+		// elsewhere; d where bit i is 0, v elsewhere), or a constant built as a constant and as "v everywhere, default d": the two
+		// handles denote the same function - the same canonical diagram - with different default values.  One is assigned over
+		// the other; what the target does afterwards (prefix extension fills the new region with ITS default) is the source's business.
+		int t = 0; long v = long(1 + r.below(6)), d = long(r.below(3)); if (d == v) d = v + 1;
+		int bit = int(r.below(uint64_t(K))); std::string one(size_t(K), 'X'), zero(size_t(K), 'X'); one[size_t(bit)] = '1'; zero[size_t(bit)] = '0';
+		int h1 = n[t], h2 = n[t] + 1;
+		if (r.chance(1, 3)) { out.push_back(gen::mk(c, "mt_const", {t, v})); out.push_back(gen::mk(c, "mt_make", {t, v, d}, std::string(size_t(K), 'X'))); }
+		else { out.push_back(gen::mk(c, "mt_make", {t, v, d}, one)); out.push_back(gen::mk(c, "mt_make", {t, d, v}, zero)); }
+		n[t] += 2;
+		if (r.chance(1, 2)) std::swap(h1, h2);
+		out.push_back(gen::mk(c, "mt_assign", {h1, h2, t}));
+		out.push_back(gen::mk(c, "mt_extend", {h1, t, long(r.below(2))}, rand_asgn(r, r.range(1, 2)))); ++n[t];
+		if (r.chance(1, 2)) { out.push_back(gen::mk(c, "mt_apply2", {h1, h2, long(r.below(8)), t})); ++n[t]; out.push_back(gen::mk(c, "mt_extend", {n[t] - 1, t, long(r.below(2))}, rand_asgn(r, r.range(1, 2)))); ++n[t]; }
+	}
 	return out;
 }
 
